@@ -15,7 +15,7 @@ import ast
 from typing import Any
 
 from ..astutil import dotted, is_const, is_none, norm, walk_body, walk_local
-from ..finite import canon_cmp
+from ..finite import k_eq, k_is, k_none, canon_cmp
 from ..flow import Interp, Semantics
 from ..report import Checker
 from ..srcmodel import Func, Unsupported
@@ -154,7 +154,7 @@ class RollbackSem(Semantics):
 
     def _facts_assign(self, facts: set, st: ast.stmt) -> set:
         names = {n.id for n in walk_local(st) if isinstance(n, ast.Name) and isinstance(n.ctx, ast.Store)}
-        facts = {(k, v) for k, v in facts if not any(k == n or k == f"is(None,{n})" for n in names)}
+        facts = {(k, v) for k, v in facts if not any(k == n or k == k_none(n) for n in names)}
         if isinstance(st, ast.Assign) and len(st.targets) == 1 and isinstance(st.targets[0], ast.Name) and isinstance(st.value, ast.Constant) \
                 and isinstance(st.value.value, bool):
             facts.add((st.targets[0].id, st.value.value))
